@@ -137,6 +137,13 @@ fn poll_expired_timers_loop(timers_cell: &mut TimerWheel, mut poll_events: Vec<P
             // (also the witness term for the existential in the postcondition)
             due_exactly_popped(timers0, timers@, now) && clock_read(now),
         decreases timers@.len(),
+//@ alt
+//@ rw R10 * <<self.timers.borrow_mut()>> => <<timers_cell>>
+//@ entry
+    // (alternative overlay for a body WITHOUT a loop -- e.g. `if let` instead of `while let`: the contract is the same, so a
+    // body that pops at most one expired timer is reported instead of being undecided)
+    let ghost fd_events = poll_events@;
+    let ghost timers0 = timers_cell@;
 //@ endslice
 
 impl Poll {
